@@ -10,6 +10,16 @@ CLAIMED = {
          "trusted: rustc/std float parsing and formatting, the strict reference reader (unit-tested, self-checked against the generator on every case). Outside: nesting > 64, duplicate member names, surrogate escapes, non-finite literals.",
          "DESIGN.md §5 C01"),
 }
+CLAIMED["C05"] = ("model_checking",
+  "bounded-exhaustive enumeration of byte strings, document corruptions and ill-typed calls on jawk::go with a no-panic/no-hang oracle (watchdog + breadcrumb)",
+  "Every byte string up to length 5 (thorough 6) over the 24 JSON-significant bytes (and up to 4/5 over 28 bytes incl. invalid UTF-8 under all four policies), every prefix and single-byte corruption of every universe document, structural families to 4 KiB, every pure function on every argument tuple over 24 atoms (ill-typed included), multi-byte characters at every byte offset 0..40 of string arguments and option texts, every strftime specifier byte and out-of-range instants are executed; a panic is caught in-process, an abort or hang kills the worker whose breadcrumb names the case.",
+  "Outside: nesting > 64, sizes > 10^4 (e.g. (sub [1] 0 9007199254740993) aborts in Vec::with_capacity - resource exhaustion by the property's own bound), exponents > 10^3, exec/trigger/now, self-referential macros.",
+  "DESIGN.md §5 C05")
+CLAIMED["C06"] = ("model_checking",
+  "bounded-exhaustive noise injection (deviation-bounded, k<=1 quick / 2 thorough) into clean streams, differential against the clean run per --on-error policy",
+  "All clean streams of <=2 (thorough 3) values over a 6-value core in 5 separator kinds, with every 1- and 2-byte noise token over 12 non-value-starting bytes in every gap, under all four policies and six pipelines, are compared clause by clause with the run on the clean stream (and on the clean prefix for panic).",
+  "trusted: the run on the clean stream (checked separately by C01/C03). Noise tokens are whitespace-delimited as the property states.",
+  "DESIGN.md §5 C06")
 NOT_YET = {}
 props=[json.loads(l) for l in open('/verif/properties.jsonl')]
 checks=[]; na=[]
